@@ -379,6 +379,7 @@ func EvalOne(ctx context.Context, s *eval.State, what string, out io.Writer, opt
 	formatted string,
 ) {
 	if !options.PanicOk {
+		sessionOut := s.Out // a panic inside a function call leaves s.Out pointing to that call's (dead) output buffer.
 		defer func() {
 			if r := recover(); r != nil {
 				panicked = true
@@ -390,6 +391,7 @@ func EvalOne(ctx context.Context, s *eval.State, what string, out io.Writer, opt
 				// reset the state so the interpreter can continue post catching the panic (avoids putting s.depth-- in a defer) but
 				// also resets to top level root env.
 				s.Reset()
+				s.Out = sessionOut
 				errs = append(errs, fmt.Sprintf("panic: %v", r))
 				return
 			}
